@@ -149,6 +149,10 @@ FIXED = [
      "exprs": {"structname": "{{.Mock}}X", "dir": "out", "filename": "{{.Mock}}_y.go", "pkgname": "m"}},
     {"kind": "expr", "i": -4, "layout": "nested", "cwd": "cfgdir", "cfgname": ".mockery.yml", "iface": "UserService", "what": "file-and-suffix", "srcfile": "catalog.go", "linedir": None,
      "exprs": {"structname": "M{{ .InterfaceName | trimSuffix \"Service\" }}", "dir": "{{.InterfaceFile | dir}}/m", "filename": "{{ .InterfaceFile | base | trimSuffix \".go\" }}_mock.go", "pkgname": "m"}},
+    {"kind": "expr", "i": -15, "layout": "sub", "cwd": "cfgdir", "cfgname": ".mockery.yml", "iface": "Store", "what": "cgo-declaring-file", "srcfile": "native.go", "linedir": None, "cgo": "declaring",
+     "exprs": {"structname": "MockStore", "dir": "{{.InterfaceDir}}/m", "filename": "{{ .InterfaceFile | base | trimSuffix \".go\" }}_mock.go", "pkgname": "m"}},
+    {"kind": "expr", "i": -16, "layout": "nested", "cwd": "cfgdir", "cfgname": ".mockery.yml", "iface": "Store", "what": "cgo-sibling-file", "srcfile": "catalog.go", "linedir": None, "cgo": "sibling",
+     "exprs": {"structname": "MockStore", "dir": "{{.InterfaceFile | dir}}/m", "filename": "{{ .InterfaceFile | base | trimSuffix \".go\" }}_mock.go", "pkgname": "m"}},
     {"kind": "expr", "i": -5, "layout": "sub", "cwd": "cfgdir", "cfgname": ".mockery.yml", "iface": "Store", "what": "line-directive", "srcfile": "billing.go", "linedir": "gen/grammar.y:9",
      "exprs": {"structname": "MockStore", "dir": "{{.InterfaceDir}}/m", "filename": "{{ .InterfaceFile | base | trimSuffix \".go\" }}_mock.go", "pkgname": "m"}},
 ]
@@ -169,6 +173,11 @@ def eval_case(ctx, case):
              os.path.join(reldir, "aaa_first.go"): "package %s\n\nvar _ = 0\n" % pkgname, os.path.join(reldir, "zzz_last.go"): "package %s\n\nvar _ = 1\n" % pkgname,
              "cwdsub/deeper/keep.go": "package deeper\n", "elsewhere/keep.go": "package elsewhere\n",
              "probeA.templ": probe.probe_template("A")}
+    if case.get("cgo"):
+        # one file of the package imports "C" (compiled from a generated copy that names its source in a line directive): the declaring file
+        # itself, or a sibling that sorts before it
+        tgt = os.path.join(reldir, srcfile if case["cgo"] == "declaring" else "aaa_first.go")
+        files[tgt] = files[tgt].replace("package %s\n" % pkgname, "package %s\n\n// #include <stdlib.h>\nimport \"C\"\n\nfunc Rand() int { return int(C.rand()) }\n" % pkgname, 1)
     root = core.scratch_module(ctx, files)
     srcpath = MOD + ("/" + reldir if reldir else "")
     exprs = dict(case["exprs"])
